@@ -50,8 +50,21 @@ def belowApplied (n : Nat) (D : Dendro α) (labels : List Nat) (thr : α) : Bool
         | v :: vs => vs.all fun w => labels.getD w 0 == labels.getD v 0
       else true
 
+/-- with a threshold only: no merge at or above `thr` is applied (its leaves do not all share one label) -/
+def aboveNotApplied (n : Nat) (D : Dendro α) (labels : List Nat) (thr : α) : Bool :=
+  (List.range D.length).all fun t =>
+    match D[t]? with
+    | none => true
+    | some r =>
+      if r.h < thr then true
+      else
+        match leaves n D (n + t) with
+        | [] => true
+        | v :: vs => vs.any fun w => labels.getD w 0 != labels.getD v 0
+
 /-- `cut_straight`: at least `n_clusters` clusters when no threshold is given, exactly `n_clusters` when the
-    heights are distinct; with a threshold every merge below it applied -/
+    heights are distinct; with a threshold every merge below it applied, and — with a threshold only, on a
+    dendrogram whose heights never decrease towards the root — no other merge -/
 def straightSpec (n : Nat) (D : Dendro α) (nClusters : Option Nat) (threshold : Option α)
     (labels : List Nat) (sorted : Bool) : Except String Unit := do
   labelsSpec n D labels sorted
@@ -65,7 +78,10 @@ def straightSpec (n : Nat) (D : Dendro α) (nClusters : Option Nat) (threshold :
     if DistinctHeights D then need (k == c) "not-exactly-n_clusters"
   | _, _ => pure ()
   match threshold with
-  | some thr => need (belowApplied n D labels thr) "merge-below-threshold-not-applied"
+  | some thr =>
+    need (belowApplied n D labels thr) "merge-below-threshold-not-applied"
+    if nClusters.isNone && MonoPaths n D then
+      need (aboveNotApplied n D labels thr) "merge-at-or-above-threshold-applied"
   | none => pure ()
 
 end straight
